@@ -70,23 +70,29 @@ def eval_real(pt, case):
     f = real_compound(pt, case)
     atoms = nc.atoms_of(f)
     mode = case["mode"]
+    used = f.density
+    kw = {}
+    if case.get("kw_on_object") and "struct" not in case and used is not None:
+        from periodictable.formulas import formula
+        kw = {"natural_density": case["density"]} if case.get("natural") else {"density": case["density"]}
+        f = formula(f.structure, density=used * 1.75)
     if mode == "wavelength":
-        res = nsf.neutron_scattering(f, wavelength=case["w"][0])
-        return f.density, atoms, [nc.scat_tuple(res)], list(case["w"])
+        res = nsf.neutron_scattering(f, wavelength=case["w"][0], **kw)
+        return used, atoms, [nc.scat_tuple(res)], list(case["w"])
     if mode == "energy":
-        res = nsf.neutron_scattering(f, energy=case["w"][0])
-        return f.density, atoms, [nc.scat_tuple(res)], [float(nsf.neutron_wavelength(case["w"][0]))]
+        res = nsf.neutron_scattering(f, energy=case["w"][0], **kw)
+        return used, atoms, [nc.scat_tuple(res)], [float(nsf.neutron_wavelength(case["w"][0]))]
     if mode == "default":
         # documented: "wavelength 1.798 : Neutron wavelength (default=1.798 Ang)"
-        return f.density, atoms, [nc.scat_tuple(nsf.neutron_scattering(f))], [1.798]
+        return used, atoms, [nc.scat_tuple(nsf.neutron_scattering(f, **kw))], [1.798]
     import numpy as np
     ws = case["w"]
-    arg = np.array(ws) if case.get("array", True) else list(ws)
-    res = nsf.neutron_scattering(f, wavelength=arg)
+    arg = nc.reused_array(ws) if case.get("array", True) else nc.reused_list(ws)
+    res = nsf.neutron_scattering(f, wavelength=arg, **kw)
     out = nc.scat_vectors(res, len(ws))
     if isinstance(out, str):
         out = [out] * len(ws)
-    return f.density, atoms, out, list(ws)
+    return used, atoms, out, list(ws)
 
 
 def model_line(case, density, atoms):
@@ -315,6 +321,10 @@ def gen_case(rng, pools):
     case = dict(atoms=[[k[0], k[1], k[2], c] for k, c in atoms], density=nc.gen_density(rng))
     if rng.random() < 0.25:
         case["natural"] = True
+    if rng.random() < 0.15:
+        # the density / natural density is given as a keyword to the calculator, on a Formula object
+        # that already carries a different density of its own
+        case["kw_on_object"] = True
     if r < 0.08:
         case.update(mode="default", w=[1.798])
     elif r < 0.45:
